@@ -66,6 +66,11 @@ func (fhs *FastHotStuff) VoteRule(view hotstuff.View, proposal hotstuff.ProposeM
 	// The base implementation verifies both regular QCs and AggregateQCs, and asserts that the QC embedded in the
 	// block is the same as the highQC found in the aggregateQC.
 	if proposal.AggregateQC != nil {
+		// the aggregate QC must be from the view preceding the proposal (or later); an aggregate QC
+		// from an older view says nothing about what was certified since then.
+		if proposal.AggregateQC.View()+1 < proposal.Block.View() {
+			return false
+		}
 		hqcBlock, ok := fhs.blockchain.Get(proposal.Block.QuorumCert().BlockHash())
 		return ok && fhs.blockchain.Extends(proposal.Block, hqcBlock)
 	}
